@@ -290,6 +290,26 @@ func TestEnumMatrix(t *testing.T) {
 			n++
 		}
 	}
+	// second level: the result of every operator on every operand pair must be a genuine
+	// boolean when it is used as an operand itself (an evaluator that leaves something else
+	// in the slot still looks false at top level)
+	fv, tv := false, true
+	for _, op := range binaryOps {
+		for _, l := range operandPool {
+			for _, r := range operandPool {
+				inner := func() *jpx.Eq { return &jpx.Eq{Op: op, L: clone(l.eq), R: clone(r.eq)} }
+				for _, outer := range []*jpx.Eq{
+					{Op: "eq", L: inner(), R: &jpx.Eq{Op: "const", CK: "bool", CB: fv}},
+					{Op: "neq", L: inner(), R: &jpx.Eq{Op: "const", CK: "bool", CB: fv}},
+					{Op: "eq", L: &jpx.Eq{Op: "const", CK: "bool", CB: tv}, R: inner()},
+					{Op: "or", L: inner(), R: &jpx.Eq{Op: "const", CK: "bool", CB: fv}},
+				} {
+					vrt.Eval(suite, "script", Case{Eq: outer, Elem: elem}, Run)
+					n++
+				}
+			}
+		}
+	}
 	for _, op := range []string{"length", "count"} {
 		for _, k := range []string{"arr", "map", "sa", "i1", "missing", "nil"} {
 			for _, r := range operandPool[:14] {
